@@ -45,8 +45,8 @@ OUTER:
 			// So, we notify/awake the merger here so that it can feed
 			// stackDirtyMid down to the persister as stackDirtyBase.
 			if m.waitDirtyIncomingCh != nil && // Merger is indeed asleep.
-				(m.stackDirtyMid != nil && len(m.stackDirtyMid.a) > 0) &&
-				(m.stackDirtyTop == nil || len(m.stackDirtyTop.a) <= 0) {
+				(m.stackDirtyMid != nil && !m.stackDirtyMid.isEmpty()) &&
+				(m.stackDirtyTop == nil || m.stackDirtyTop.isEmpty()) {
 				// Do not block here, as the collection lock is held: when
 				// the ping channel is full (the application or the idle
 				// waker notify faster than the merger drains) the merger
